@@ -1,5 +1,6 @@
 /- `etkmodel`: line-protocol driver running the executable models. -/
 import EtkVerif.Driver.Basic
+import EtkVerif.Driver.HexCmd
 open EtkVerif.Driver
 
 def dispatch (line : String) : String :=
@@ -8,6 +9,8 @@ def dispatch (line : String) : String :=
     if cmd == "dis" then cmdDis args
     else if cmd == "sep" then cmdSep args
     else if cmd == "ops" then cmdOps args
+    else if cmd == "hexr" then cmdHexR args
+    else if cmd == "hexw" then cmdHexW args
     else s!"bad-op {cmd}"
   | [] => "bad-op"
 
